@@ -1991,6 +1991,7 @@ func runLifecycle(c lifecycleCase, sec *vh.Section) {
 		// run, the positions file must be gone and stay gone.
 		name := "pc"
 		stopW := make(chan struct{})
+		var pauseW, inWrite int32
 		var wwg sync.WaitGroup
 		wwg.Add(1)
 		go func() {
@@ -2001,7 +2002,18 @@ func runLifecycle(c lifecycleCase, sec *vh.Section) {
 					return
 				default:
 				}
-				r.write(0, mkEvs("w", i*4, 4), []string{"direct", "rpc"}[i%2])
+				if atomic.LoadInt32(&pauseW) == 1 {
+					time.Sleep(2 * time.Millisecond)
+					i--
+					continue
+				}
+				atomic.StoreInt32(&inWrite, 1)
+				if atomic.LoadInt32(&pauseW) == 0 {
+					r.write(0, mkEvs("w", i*4, 4), []string{"direct", "rpc"}[i%2])
+				} else {
+					i--
+				}
+				atomic.StoreInt32(&inWrite, 0)
 				time.Sleep(3 * time.Millisecond)
 			}
 		}()
@@ -2010,7 +2022,7 @@ func runLifecycle(c lifecycleCase, sec *vh.Section) {
 		hold := int32(0)
 		verifhook.Set("pipe.delete.beforeRemove", func() {
 			if atomic.LoadInt32(&hold) == 1 {
-				time.Sleep(30 * time.Millisecond)
+				time.Sleep(8 * time.Millisecond)
 			}
 			atomic.StoreInt32(&reached, 1)
 		})
@@ -2018,32 +2030,67 @@ func runLifecycle(c lifecycleCase, sec *vh.Section) {
 		inherit, inheritEarly, fileBack := 0, 0, 0
 		watchdog := func(what string, f func()) bool {
 			p := ""
-			ok := vh.WithTimeout(20*time.Second, func() { p = vh.Recover(f) })
+			ok := vh.WithTimeout(60*time.Second, func() { p = vh.Recover(f) })
 			if !ok || p != "" {
-				res.SpecFail(vh.SpecFailure{Section: "lifecycle", Kind: map[bool]string{true: "panic", false: "hang"}[p != ""], Input: c, Impl: what + ": " + p, Spec: "returns", What: "deleting and re-creating a pipe under load hangs or panics"})
+				if p == "" {
+					// which goroutines of the pipe package are where?
+					buf := make([]byte, 1<<22)
+					n := runtime.Stack(buf, true)
+					var keep []string
+					for _, g := range strings.Split(string(buf[:n]), "\n\n") {
+						if strings.Contains(g, "pkg/pipe.") && !strings.Contains(g, "worker).run") && !strings.Contains(g, "pipesCleaner") {
+							ls := strings.Split(g, "\n")
+							if len(ls) > 9 {
+								ls = ls[:9]
+							}
+							keep = append(keep, strings.Join(ls, " | "))
+						}
+					}
+					p = "goroutines in pkg/pipe: " + strings.Join(keep, " || ")
+					if len(p) > 6000 {
+						p = p[:6000]
+					}
+				}
+				res.SpecFail(vh.SpecFailure{Section: "lifecycle", Kind: map[bool]string{true: "panic", false: "hang"}[ok], Input: c, Impl: what + ": " + p, Spec: "returns", What: "deleting and re-creating a pipe under load hangs or panics"})
 				return false
 			}
 			return true
 		}
 		rounds := 30
 		for i := 0; i < rounds; i++ {
+			// odd rounds: the writer pauses after the deletion was acknowledged and the write-event channel drains before the
+			// re-creation, so a descriptor right after CreatePipe can only have been loaded from the positions file; even
+			// rounds: everything keeps running (safety only: a notification in flight may legitimately create a descriptor)
+			paused := i%2 == 1
+			if paused {
+				atomic.StoreInt32(&pauseW, 1)
+				for empty, t0 := 0, time.Now(); empty < 3 && time.Since(t0) < 5*time.Second; {
+					if srv.Parts.VerifC10WriteEventsQueued() == 0 && atomic.LoadInt32(&inWrite) == 0 {
+						empty++
+					} else {
+						empty = 0
+					}
+					time.Sleep(4 * time.Millisecond)
+				}
+			}
+			reachedBefore := atomic.LoadInt32(&reached) == 1
+			_, statErr := os.Stat(fileName)
+			fileThere := statErr == nil && i > 0 // the deleted pipe's positions file exists when the re-creation starts
 			if !watchdog("CreatePipe", func() { srv.Pipes.CreatePipe(pipe.Pipe{Name: name, TagsCond: "grp=g1"}) }) {
 				break
 			}
-			if i > 0 {
-				if dl := descLine(srv, name, tl); dl != "none" && !strings.HasPrefix(dl, "-1") {
-					// a notification may already have created a descriptor (the writer never stops): inheritance shows as a
-					// position before the number of events stored at the re-creation
-					f := strings.Fields(dl)
-					if pos, _ := strconv.Atoi(f[0]); pos < int(atomic.LoadInt64(&createdAtCount)) {
-						inherit++
-						if atomic.LoadInt32(&reached) == 0 {
-							inheritEarly++
-						}
+			if paused {
+				if dl := descLine(srv, name, tl); dl != "none" {
+					inherit++
+					if !reachedBefore || fileThere {
+						// the clean-up had not reached the removal yet, or it had and the file was there again (a worker that
+						// finished its write after the deletion saved its state): both ways into the class of F74
+						inheritEarly++
 					}
 				}
+				atomic.StoreInt32(&pauseW, 0)
 			}
-			time.Sleep(time.Duration(5+i%3*20) * time.Millisecond)
+			time.Sleep(time.Duration(2+i%3*4) * time.Millisecond)
 			atomic.StoreInt32(&hold, int32(i%2))
 			atomic.StoreInt32(&reached, 0)
 			if !watchdog("DeletePipe", func() { srv.Pipes.DeletePipe(name) }) {
@@ -2054,7 +2101,7 @@ func runLifecycle(c lifecycleCase, sec *vh.Section) {
 			r.mu.Unlock()
 			if i%5 == 4 {
 				// let the clean-up and any finishing worker run, then the file must be gone for good
-				time.Sleep(250 * time.Millisecond)
+				time.Sleep(120 * time.Millisecond)
 				if _, err := os.Stat(fileName); err == nil {
 					fileBack++
 				}
@@ -2062,19 +2109,13 @@ func runLifecycle(c lifecycleCase, sec *vh.Section) {
 		}
 		close(stopW)
 		wwg.Wait()
-		res.Dist(sec, fmt.Sprintf("churn: inherited=%d (before the clean-up reached the removal: %d) file-back=%d", inherit, inheritEarly, fileBack))
+		res.Dist(sec, fmt.Sprintf("churn: inherited=%d (in the class of F74: %d) file-back=%d", inherit, inheritEarly, fileBack))
 		if inherit > 0 || fileBack > 0 {
-			finding := ""
-			if fileBack == 0 && inherit == inheritEarly {
-				finding = "F74" // every inheritance happened before the clean-up goroutine had reached the removal
-			}
-			if fileBack > 0 {
-				// the file re-appeared after the clean-up: a worker that finished its write after the deletion saved its state —
-				// the second way into F74's class (saveState has no `deleted` guard)
-				finding = "F74"
-			}
+			// both ways into F74 (re-creation before the clean-up removed the file; a finishing worker's saveState bringing the
+			// file back) are closed by 84f34ca: any recurrence is tagged
+			finding := "F74"
 			res.SpecFail(vh.SpecFailure{Section: "lifecycle", Kind: "recreated-pipe-inherits-positions", Input: c,
-				Impl: fmt.Sprintf("%d of %d re-created pipes started with a position older than their creation (%d of them before the clean-up reached the removal); positions file present %d times 250 ms after an acknowledged deletion", inherit, rounds-1, inheritEarly, fileBack),
+				Impl: fmt.Sprintf("%d of %d pipes re-created with the writer paused and the write-event channel drained had a descriptor of the source right after CreatePipe (%d of them before the clean-up reached the removal, or with the file brought back by a finishing worker); positions file present %d times 120 ms after an acknowledged deletion", inherit, rounds/2, inheritEarly, fileBack),
 				Spec: "none", Finding: finding,
 				What: "delete + immediate re-create under one name while workers are busy: the new pipe inherits the deleted pipe's positions, or the deleted pipe's positions file comes back"})
 		}
@@ -2176,8 +2217,12 @@ func runLifecycle(c lifecycleCase, sec *vh.Section) {
 			finding := ""
 			// class of F74: a pipe created under the name of a deleted pipe BEFORE that pipe's asynchronous clean-up has removed
 			// its positions file (the clean-up goroutine is parked). Inheritance after the clean-up has run is something else.
-			if inherited != "none" && (c.Variant == "recreate-parked" || (c.Variant == "recreate-free" && !cleanupFirst)) {
-				finding = "F74" // free-running: the re-creation started before the clean-up goroutine had reached the removal
+			// F74 (fixed by 84f34ca: the clean-up runs before DeletePipe acknowledges, saveState refuses for a deleted pipe): any
+			// position a re-created pipe knows before its first notification is tagged, so that the check reports "the defect
+			// is back" (cleanupFirst only goes into the evidence)
+			_ = cleanupFirst
+			if inherited != "none" {
+				finding = "F74"
 			}
 			res.SpecFail(vh.SpecFailure{Section: "lifecycle", Kind: "recreated-pipe-inherits-positions", Input: c,
 				Impl: fmt.Sprintf("pipe partition: %v; descriptor of the source right after the re-creation: %s", got, inherited), Spec: fmt.Sprintf("%v; no descriptor", want),
